@@ -1,6 +1,6 @@
 (* C07 — property theorems.  Only statements, [exact lemma] and Print Assumptions. *)
-From Coq Require Import ZArith List Permutation.
-From FV Require Import Lib.RustInt C05.Model C05.Proofs C07.Proofs C07.Equiv.
+From Coq Require Import ZArith List Permutation Sorted.
+From FV Require Import Lib.RustInt C05.Model C05.Proofs C07.Proofs C07.Equiv C07.PromoteModel C07.Promote.
 Import ListNotations.
 Open Scope Z_scope.
 
@@ -78,6 +78,34 @@ Theorem c07_concurrent_history_independent : forall d base picks, incr_nat picks
   dump_table d (map (fun i => base + Z.of_nat i) picks) = dump_table d (canonical (length picks)).
 Proof. exact concurrent_history_independent. Qed.
 
+(* ---- round 3: the extension-promotion choice (get_promotable_subtables + select_promotions_hb) ---- *)
+
+(* the set of lookups may be listed in any order (any permutation): the ascending-id enumeration of the
+   BTreeMap `objects` makes the promoted set, and the order it is returned in, the same *)
+Theorem c07_promotion_candidate_order_independent : forall sz o1 o2,
+  Permutation o1 o2 -> NoDup (map lk_id o1) -> promote sz o1 = promote sz o2.
+Proof. exact promote_perm_independent. Qed.
+
+(* the stable sort_by_key applied to that enumeration ranks the candidates by (score descending, id ascending):
+   ties in the score are broken by the id (creation order), never by anything else *)
+Theorem c07_promotion_ties_broken_by_id : forall l, NoDup (map lk_id l) ->
+  StronglySorted (fun x y => lk_key x > lk_key y \/ (lk_key x = lk_key y /\ lk_id x < lk_id y)) (sort_by_key (btree_order l)).
+Proof. exact ranked_candidates_lex_sorted. Qed.
+
+(* ids are inspected only through their order: under every strictly monotone renaming (another counter start,
+   other threads' draws interleaved) the same lookups are promoted, in the same order *)
+Theorem c07_promotion_equivariant : forall (rho : Z -> Z), (forall a b, a < b -> rho a < rho b) ->
+  forall sz l, promote sz (map (ren rho) l) = option_map (map rho) (promote sz l).
+Proof. exact promote_r. Qed.
+
+(* FULL statement "the choice is independent of the order in which the candidates reach select_promotions_hb"
+   (forall perm, promote_perm perm sz l = promote sz l) is FALSE of the faithful model: the ranking has no
+   tie-break of its own, so a hash container between `objects` and the ranking changes the promoted set *)
+Theorem c07_promotion_unordered_candidates_refuted :
+  exists (perm : list lookup -> list lookup) sz l,
+    (forall l, Permutation l (perm l)) /\ NoDup (map lk_id l) /\ promote_perm perm sz l <> promote sz l.
+Proof. exact promote_hash_order_refuted. Qed.
+
 (* NOT covered by these theorems: the space-assignment / isolation / duplication path (not modelled: the
    model answers Beyond there, identically for all streams), gvar / IVS / klippa: schedule experiment only. *)
 
@@ -93,3 +121,7 @@ Print Assumptions c07_pack_equivariant.
 Print Assumptions c07_dump_table_equivariant.
 Print Assumptions c07_counter_independent.
 Print Assumptions c07_concurrent_history_independent.
+Print Assumptions c07_promotion_candidate_order_independent.
+Print Assumptions c07_promotion_ties_broken_by_id.
+Print Assumptions c07_promotion_equivariant.
+Print Assumptions c07_promotion_unordered_candidates_refuted.
